@@ -1,6 +1,11 @@
 package vrt
 
-import "fmt"
+import (
+	"bytes"
+	"fmt"
+	"reflect"
+	"strings"
+)
 
 // Mutex is the virtual sync.Mutex (zero value usable, also across executions).
 type Mutex struct {
@@ -291,8 +296,40 @@ func (p *Pool) Put(x interface{}) {
 		p.epoch = W.Epoch
 		p.items = nil
 	}
+	poison(x)
 	p.items = append(p.items, x)
 }
+
+// poison makes use-after-recycle visible whatever the timing: whoever still holds a reference to a
+// recycled object (or to the storage of a recycled, reset buffer) must not use it any more, so the
+// pool may do with it what the next owner would.  An empty *bytes.Buffer gets its whole capacity
+// overwritten with 0xDB (and is reset again); a pointer to any other struct is set to its zero
+// value when the pool has a New function (the next owner initialises every field, as after New).
+func poison(x interface{}) {
+	if NoPoison {
+		return
+	}
+	if b, ok := x.(*bytes.Buffer); ok {
+		if b != nil && b.Len() == 0 && b.Cap() > 0 {
+			n := b.Cap()
+			for i := 0; i < n; i++ {
+				b.WriteByte(0xDB)
+			}
+			b.Reset()
+		}
+		return
+	}
+	if _, ok := x.(*strings.Builder); ok {
+		return
+	}
+	v := reflect.ValueOf(x)
+	if v.Kind() == reflect.Ptr && !v.IsNil() && v.Elem().Kind() == reflect.Struct && v.Elem().CanSet() {
+		v.Elem().Set(reflect.Zero(v.Elem().Type()))
+	}
+}
+
+// NoPoison switches the poisoning of recycled objects off (litmus tests only).
+var NoPoison bool
 
 // AtomicOp runs f as one visible atomic step on the word identified by ptr.
 // f returns the value it observed / wrote (folded into the histories).
